@@ -218,10 +218,28 @@ def run(ctx):
     for n, t in dv.builder.call_sites:
         site_label[dv.site(n.ast)] = t.label
     opf = None
+    helpers_called = []
     for n in ast.walk(vm.node):
         if isinstance(n, ast.Call) and isinstance(n.func, ast.Attribute) and isinstance(n.func.value, ast.Name) and \
-                n.func.value.id == tc.name and n.func.attr != vm.name:
-            opf = tc.lookup(n.func.attr)
+                n.func.value.id == tc.name and n.func.attr != vm.name and tc.lookup(n.func.attr) is not None:
+            helpers_called.append(tc.lookup(n.func.attr))
+    # the operator filter is the helper that reads the 'operator' entry (directly or through what it calls)
+    for h_ in helpers_called:
+        reach_ = [h_] + [tc.lookup(x.func.attr) for x in ast.walk(h_.node) if isinstance(x, ast.Call) and isinstance(x.func, ast.Attribute) and
+                         isinstance(x.func.value, ast.Name) and x.func.value.id == tc.name and tc.lookup(x.func.attr) is not None]
+        if any(isinstance(k, ast.Constant) and k.value == 'operator' for f_ in reach_ for k in ast.walk(f_.node)):
+            opf = h_
+    # helpers of the matcher carry no memoisation: a cache hashes its arguments before the helper's own type guard runs
+    memo = []
+    for h_ in [vm, top] + helpers_called:
+        for d_ in h_.decorators:
+            if d_.split('.')[-1].split('(')[0] in ('lru_cache', 'cache', 'cached', 'memoize', 'memoized'):
+                memo.append((h_, d_))
+    ca.instance('matcher helpers are not memoised (%d helpers)' % (2 + len(helpers_called)), vm.qualname, not memo)
+    for h_, d_ in memo[:1]:
+        res.add(Finding('C14', 'C14.a', 'R-CONTAIN', h_.file, h_.qualname, h_.node.lineno, '@' + d_,
+                        'the matcher helper %s is memoised (@%s): the cache hashes the recorded value before the helper looks at its type, so a '
+                        'recorded list / dict raises TypeError (unhashable) instead of answering False, and the whole lookup aborts' % (h_.qualname, d_)))
     if opf is None:
         raise AnalysisError('anchor-lost role=operator filter')
 
@@ -319,6 +337,38 @@ def run(ctx):
             it = c.methods['iter_recording_ids']
             res.add(Finding('C14', 'C14.c', 'R-WHOCALLS', it.file, it.qualname, it.node.lineno, 'metadata filter of %s' % c.name,
                             '%s does not use the shared matcher: its listing would disagree with the documented filter meaning' % c.name))
+    # ... and the matcher alone decides about the metadata: a listing adds an id under no other condition on the recorded metadata
+    from . import common
+    for c in impls:
+        it = c.methods['iter_recording_ids']
+        mparams = [p for p in it.params if 'metadata' in p]
+        from .. import paths as _paths
+        appends = _paths.paths_to(it.node.body, lambda x: isinstance(x, ast.Call) and isinstance(x.func, ast.Attribute) and x.func.attr == 'append' and
+                                  isinstance(x.func.value, ast.Name))
+        if not appends or not mparams:
+            continue          # listings that do not collect ids in a local list (S3: lazy iterators) are covered by the content-filter clause
+        md_locals = set(mparams)
+        for n in walk_own(it.node):
+            if isinstance(n, ast.Assign) and isinstance(n.targets[0], ast.Name) and any(
+                    isinstance(x, ast.Call) and isinstance(x.func, ast.Attribute) and x.func.attr in ('get_metadata', 'get_recording_metadata') for x in ast.walk(n.value)):
+                md_locals.add(n.targets[0].id)
+        extra = []
+        for st_, conds in appends:
+            for t_, p_ in conds:
+                for lit, lp in common.split_literals(t_, p_):
+                    uses_matcher = any(isinstance(x, ast.Call) and isinstance(x.func, ast.Attribute) and x.func.attr == top.name for x in ast.walk(lit))
+                    names = {x.id for x in ast.walk(lit) if isinstance(x, ast.Name)}
+                    reads_md = bool(names & md_locals) or any(isinstance(x, ast.Call) and isinstance(x.func, ast.Attribute) and
+                                                              x.func.attr in ('get_metadata', 'get_recording_metadata') for x in ast.walk(lit))
+                    plain_presence = isinstance(lit, ast.Name) and lit.id in mparams          # `if metadata:` - no filter given
+                    if reads_md and not uses_matcher and not plain_presence:
+                        extra.append((st_, lit, lp))
+        cc.instance('%s: ids are added under no condition on the metadata other than the shared matcher' % it.qualname, it.qualname, not extra)
+        cc.evaluations += len(appends)
+        for st_, lit, lp in extra[:1]:
+            res.add(Finding('C14', 'C14.c', 'R-WHOCALLS', it.file, it.qualname, lit.lineno, norm(lit)[:100],
+                            '%s applies its own condition `%s%s` on the recorded metadata besides the shared matcher: recordings the documented '
+                            'filter accepts (e.g. a missing value against a None alternative) are left out' % (it.qualname, '' if lp else 'not ', norm(lit))))
     return res
 
 
